@@ -82,8 +82,8 @@ func ruleServerID(c *Ctx, prefix string) {
 			kNeed := histEqIn(st, ktRe, needSID)
 			eq, _ := histFact(st, "bool", eqRe)
 			D := or3(not3(ie), and3(not3(sidNil), kNo), and3(not3(sidNil), not3(eq)), and3(sidNil, kNeed))
-			r0 := ex.Resolve(st, ret.Results[0])
-			r1, _ := ex.Resolve(st, ret.Results[1]).(*ssa.Const)
+			r0 := ex.ResolveDeep(st, ret.Results[0])
+			r1, _ := ex.ResolveDeep(st, ret.Results[1]).(*ssa.Const)
 			isDrop := isNilConst(r0) && r1 != nil && constStr(r1) == "true"
 			desc := fmt.Sprintf("inner-ok=%d sid-absent=%d type∈{Solicit,Confirm,Rebind}=%d type∈{Request,Renew,Decline,Release}=%d sid-equal=%d", ie, sidNil, kNo, kNeed, eq)
 			if isDrop {
@@ -182,7 +182,7 @@ func ruleServerID(c *Ctx, prefix string) {
 			if oH != -1 {
 				o54OK = or3(oN, oO, not3(oH))
 			}
-			r0 := ex.Resolve(st, ret.Results[0])
+			r0 := ex.ResolveDeep(st, ret.Results[0])
 			if isNilConst(r0) {
 				nDrop++
 				if or3(not3(siOK), not3(o54OK)) != 1 {
